@@ -116,7 +116,7 @@ def run(ctx):
         ctx.report("model:" + mc.violated, "Artifacts.tla violates its own invariant " + mc.violated,
                    {"tlc": mc.counterexample()[:4000]})
     ctx.build_vh("vh-exec")
-    full = c15pool.pool(n_gen=24, n_corpus=51)      # 3 hand + 2 fixed corpus + 51 corpus + 24 generated = 80
+    full = c15pool.pool(n_gen=16, n_corpus=35)      # 3 hand + 2 fixed corpus + 35 corpus + 16 generated = 56
     fixed = [p for p in full if p["origin"] == "hand" or p["origin"].split(":", 1)[-1] in c15pool.CORPUS_ALWAYS]
     rest = [p for p in full if p not in fixed]
     if ctx.quick:
